@@ -26,11 +26,16 @@ VARIANTS = {
     'tsan':    (['-O1', '-g', '-fsanitize=thread'], True),
 }
 
+class BuildFailed(Exception):
+    pass
+
 def run(cmd, **kw):
     r = subprocess.run(cmd, capture_output=True, text=True, **kw)
     if r.returncode != 0:
         sys.stderr.write("BUILD FAILED: %s\n%s\n%s\n" % (' '.join(cmd), r.stdout[-4000:], r.stderr[-4000:]))
-        raise SystemExit(2)
+        # an Exception, not an exit: check.py turns it into a reported violation (the harness no longer builds against this tree,
+        # so the correspondence cannot be carried out)
+        raise BuildFailed('build failed: %s: %s' % (os.path.basename(cmd[0]), (r.stderr.strip().splitlines() or ['?'])[-1][:300]))
     return r
 
 def lib_sources(repo, openssl=True):
